@@ -61,6 +61,7 @@ class IdealReservoir:
             times to solve for pressure
         """
         self.time = time
+        self.__dict__.pop("recovery", None)  # forget results of an earlier run
         x = np.linspace(0, 1, self.nx)
         dx_squared = (x[1] - x[0]) ** 2
         pseudopressure = np.empty((len(time), self.nx))
@@ -187,6 +188,7 @@ class SinglePhaseReservoir(IdealReservoir):
         ValueError: wrong length changing pressure at frac-face
         """
         self.time = time
+        self.__dict__.pop("recovery", None)  # forget results of an earlier run
         dx_squared = (1 / self.nx) ** 2
         pseudopressure = np.empty((len(time), self.nx))
         if pressure_fracface is None:
@@ -198,7 +200,6 @@ class SinglePhaseReservoir(IdealReservoir):
                     f" {len(pressure_fracface)} versus {len(time)}"
                 )
                 raise ValueError(msg)
-            self.pressure_fracface = pressure_fracface
         m_i = self.fluid.m_i
         m_f = self.fluid.m_scaled_func(pressure_fracface)
         pseudopressure_initial = np.full(self.nx, m_i)
